@@ -206,6 +206,7 @@ type replayFile struct {
 	Trace     []string   `json:"trace"`
 	Shrink    string     `json:"shrink,omitempty"`
 	Flaky     string     `json:"nondeterministic,omitempty"`
+	Prelude   []uint64   `json:"prelude_runs,omitempty"` // run indices (same property, tier and seed) executed in the same process before this run: state the library keeps across calls
 	Note      string     `json:"note,omitempty"`
 }
 
@@ -217,10 +218,21 @@ func cmdExec(args []string) int {
 	idx := fs.Int64("i", -1, "")
 	tapeFile := fs.String("tape", "", "JSON file holding a tape ([]uint64) or a replay file")
 	known := fs.String("known", "", "")
+	preludeF := fs.String("prelude", "", "comma-separated run indices to execute first in this process (results ignored)")
 	fs.Parse(args)
 	sc := getScenario(*prop)
 	applyMemLimit(sc)
 	var tape *Tape
+	if *preludeF != "" {
+		kn0 := loadKnown(*known, *prop)
+		for _, f := range strings.Split(*preludeF, ",") {
+			j, err := strconv.ParseUint(f, 10, 64)
+			if err != nil {
+				infraFatal("bad -prelude")
+			}
+			executeRun(sc, *tier, NewTape(runSeed(*seed, *prop, j)), newStats(), false, kn0, j)
+		}
+	}
 	if *tapeFile != "" {
 		b, err := os.ReadFile(*tapeFile)
 		if err != nil {
